@@ -317,6 +317,10 @@ def structural(exe, aggs, d, files):
     tprefix = '\n'.join(a.definition() for a in aggs) + '\n'
     rprefix = '\n'.join(a.definition(ref=True) for a in aggs) + '\n'
     probes = '\n'.join('%s vfp_%s(%s x) { return x; }' % (a.cname, a.tag, a.cname) for a in aggs) + '\n'
+    # variadic marker position at call sites and definitions (C23 '(...)' included: the references cannot compile it, the IL is inspected)
+    probes += ('int vz0(...); int vz1(int, ...); int vz2(int, double, ...); int vn2(int, double);\n'
+               'int vzc(void) { return vz0() + vz0(1.5, 2) + vz1(1) + vz1(1, 2.5) + vz2(1, 2.0) + vz2(1, 2.0, 3, 4.0) + vn2(1, 2.0); }\n'
+               'int vzd0(...) { return 0; } int vzd1(int a, ...) { return a; } int vnd(int a) { return a; }\n')
     for t in common.TARGETS:
         robj, rrej, rerr = dataref.ref_images('clang', t, rprefix, lay, d, 'lay' + t)
         if robj is None or rrej:
@@ -326,6 +330,22 @@ def structural(exe, aggs, d, files):
             recs.append({'kind': 'reject', 'side': 'probe:' + t, 'msg': cr.err.decode('latin-1')[:300], 'files': {'probe.c': tprefix + probes}})
             continue
         m = qbeil.parse(cr.out.decode('latin-1'))
+        want = {'vz0': 0, 'vz1': 1, 'vz2': 2, 'vn2': None}
+        seen = 0
+        for f in m.funcs:
+            if f.name in ('vzd0', 'vzd1', 'vnd') and f.variadic != (f.name != 'vnd'):
+                recs.append({'kind': 'type', 'target': t, 'tag': f.name, 'ok': False, 'size': 0, 'union': False, 'hasbf': False, 'detail': 'variadic marker of the definition of %s is wrong' % f.name, 'files': {'probe.c': probes}})
+            if f.name != 'vzc':
+                continue
+            for b in f.blocks:
+                for i in b.insts:
+                    if i.op == 'call' and i.args and i.args[0].kind == 'glob' and i.args[0].v in want:
+                        seen += 1
+                        if i.vararg_at != want[i.args[0].v]:
+                            recs.append({'kind': 'type', 'target': t, 'tag': i.args[0].v, 'ok': False, 'size': 0, 'union': False, 'hasbf': False, 'files': {'probe.c': probes},
+                                         'detail': 'call to %s carries the variadic marker at argument %s, its prototype has %s named parameters' % (i.args[0].v, i.vararg_at, want[i.args[0].v])})
+        if seen != 7:
+            recs.append({'kind': 'type', 'target': t, 'tag': 'vzc', 'ok': False, 'size': 0, 'union': False, 'hasbf': False, 'detail': 'expected 7 probe calls in vzc, found %d' % seen, 'files': {'probe.c': probes}})
         ptype = {}
         for f in m.funcs:
             if f.name.startswith('vfp_') and f.ret and f.ret[0] == ':':
